@@ -426,6 +426,11 @@ static std::string step(const std::vector<std::string> &w)
     return afterBw(old);
   }
   if (op == "dump") return afterBw(0);
+  if (op == "bw_rewind") {
+    // the writer is rewound between messages: its array is resized to 0 and written again
+    bw->buffer->resize(0, 0);
+    return afterBw(0);
+  }
   if (op == "bw_take") {
     // hand the written bytes over without a copy and reuse the writer: move construction / move assignment of the
     // writer's OwnedArray; the receiver must hold exactly the written bytes and the writer's array must be empty
@@ -491,6 +496,12 @@ static std::string step(const std::vector<std::string> &w)
   }
   if (op == "rd_open") {
     if (w[1] == "bw") rd.reset(new BufferReader(bw->buffer));
+    else if (w[1] == "copy") rd.reset(new BufferReader(std::make_shared<OwnedArray<uint8_t>>(*bw->buffer)));   // a copy of the array
+    else if (w[1] == "moved") {
+      // the array is moved into a new one (the writer's array is empty afterwards)
+      auto a = std::make_shared<OwnedArray<uint8_t>>(std::move(*bw->buffer));
+      rd.reset(new BufferReader(a));
+    }
     else if (w[1] == "fw") {
       if (!fw) return "dead";
       rd.reset(new BufferReader(fw->getWrittenView()));
